@@ -389,6 +389,7 @@ func TestC01Exhaustive(t *testing.T) {
 			}
 			func() {
 				p := &P{T: t, base: base{id: "C01", r: r}}
+		p.self = p
 				defer p.finish()
 				p.caseVal = c
 				runC01(p, c)
@@ -412,6 +413,7 @@ func FuzzC01(f *testing.F) {
 	f.Fuzz(func(t *testing.T, rr uint8, ann []byte) {
 		c := C01Case{R: int32(rr % 13), HasAnn: true, Ann: string(ann), SetName: "web"}
 		p := &P{T: t, base: base{id: "C01", r: r}}
+		p.self = p
 		defer p.finish()
 		p.caseVal = c
 		runC01(p, c)
